@@ -45,7 +45,8 @@ def sig(case, why):
     return ("nlri", c["k"], detail, why)
 
 
-KNOWN = {"known-ls-schema": "ls-nlri-api-form-lossy", "known-ls-attr": "ls-attribute-api-form-lossy"}
+KNOWN = {"known-ls-schema": "ls-nlri-api-form-lossy", "known-ls-attr": "ls-attribute-api-form-lossy",
+         "known-rtc-as0": "rtc-as0-api-form-ambiguous", "known-rtc-value": "rtc-value-not-a-route-target-api-form"}
 
 
 def known_hit(c, rt):
